@@ -31,6 +31,18 @@ CLAIMED["C06"] = ("Proof, for every int64/uint64 value, byte length and rune cou
     "Not covered: regular-expression semantics itself, decimal64 ranges, and that every sanitised pattern is applied (the pattern loop is only proved "
     "not to accept a string outside the length space).", "5 (C06)", "Known finding: patterns starting with '^' are not grouped (KNOWN_FINDINGS.txt).")
 
+CLAIMED["C18"] = ("Proof in floating-point theory, for every float64 (NaN, infinities, denormals, non-integral and out-of-range values "
+    "included) and every YANG kind, that checkJSONFloat64Range / yangFloatIntToGoType accept a JSON number for an 8/16/32-bit integer leaf exactly "
+    "when it denotes an integer of that type's value space, and then store exactly that integer with the leaf's Go type; and that "
+    "gNMIToYANGTypeMatches is true exactly for the (YANG kind, TypedValue oneof) pairs of the gNMI scalar mapping, JSON tolerance adding only "
+    "non-negative int_val for unsigned kinds. Not covered: int64/uint64/decimal64 string parsing (strconv), base64, enumeration names, unions and "
+    "the reflection plumbing that carries the decoded value into the struct.", "5 (C18)", "")
+CLAIMED["C28"] = ("Proof that fieldTag / protoTagForEntry return, whenever they return without error, a legal protobuf field number (1..2^29-1, outside "
+    "19000-19999) and that the number equals a specification function of the schema path alone (FNV-32 of the path masked to 29 bits, re-hashed "
+    "with '_' appended while reserved), FNV-32 being an uninterpreted function of the bytes written. The recursive call is used by contract; "
+    "termination is not proved. Not covered: distinctness of field numbers/names within a message (a 29-bit hash of sibling paths can collide and the "
+    "generator has no collision handling - not provable, see DESIGN.md), enum numbering, proto3 syntax of the emitted files.", "5 (C28)", "")
+
 NA = {
     "C01": "RFC7951 JSON round-trip is a relation between two reflection walkers (structJSON/jsonValue vs unmarshalStruct/unmarshalList) over arbitrary generated struct types; no function-level contract within this verifier's reach carries it (no reflect memory model). Scalar kernels are decided under C18/C19 where claimed.",
     "C02": "gNMI notification round-trip lives in the reflection walkers (findUpdatedLeaves, retrieveNode); not expressible as contracts the VC generator can check.",
@@ -57,13 +69,11 @@ PENDING = {
     "C15": "contracts not completed yet (generated ordered maps)",
     "C16": "contracts not completed yet (key string encode/decode pairing)",
     "C17": "contracts not completed yet (enum lookup kernels)",
-    "C18": "contracts not completed yet (numeric decoding kernels)",
     "C19": "contracts not completed yet (scalar encoding kernels)",
     "C20": "contracts not completed yet (safety contracts)",
     "C22": "contracts not completed yet (intent diff partition)",
     "C23": "contracts not completed yet (set-to-notifications classification)",
     "C24": "contracts not completed yet (protomap wrapper pairing)",
-    "C28": "contracts not completed yet (fieldTag range)",
     "C29": "contracts not completed yet (path struct resolution kernel)",
     "C32": "contracts not completed yet (PruneConfigFalse per-node rule)",
     "C33": "contracts not completed yet (PopulateDefaults frame)",
